@@ -205,7 +205,7 @@ impl<'a, 'tcx> Cx<'a, 'tcx> {
                 let _ = write!(s, "\"p\":{}", esc(&dpath(tcx, uv.def)));
             } else {
                 sep(&mut s);
-                s.push_str("\"promoted\":1");
+                let _ = write!(s, "\"promoted\":{}", uv.promoted.unwrap().as_usize());
             }
         }
         let scalar_ok = ty.is_integral() || ty.is_bool() || ty.is_char() || matches!(ty.kind(), ty::Adt(..));
@@ -472,7 +472,58 @@ fn adt_record<'tcx>(tcx: TyCtxt<'tcx>, adt: ty::AdtDef<'tcx>, local: bool) -> St
     s
 }
 
-fn body_facts<'tcx>(tcx: TyCtxt<'tcx>, def: LocalDefId, body: &Body<'tcx>) {
+fn promoted_summary<'tcx>(tcx: TyCtxt<'tcx>, pb: &Body<'tcx>) -> String {
+    // aggregates and scalar constants built by a promoted constant's body
+    let mut items: Vec<String> = Vec::new();
+    let env = TypingEnv::fully_monomorphized();
+    for bb in pb.basic_blocks.iter() {
+        for stmt in &bb.statements {
+            if let StatementKind::Assign(b) = &stmt.kind {
+                let (_pl, rv) = &**b;
+                match rv {
+                    Rvalue::Aggregate(k, ops) => {
+                        if let AggregateKind::Adt(d, v, ..) = &**k {
+                            let adt = tcx.adt_def(*d);
+                            let var = adt.variant(*v);
+                            items.push(format!(
+                                "{{\"adt\":{},\"var\":{}}}",
+                                esc(&dpath(tcx, *d)),
+                                if adt.is_enum() { esc(&var.name.to_string()) } else { "null".to_string() }
+                            ));
+                        }
+                        for o in ops.iter() {
+                            if let Operand::Constant(c) = o {
+                                let ty = c.const_.ty();
+                                if ty.is_integral() || ty.is_bool() {
+                                    if let Some(si) = c.const_.try_eval_scalar_int(tcx, env) {
+                                        items.push(format!("{{\"v\":{}}}", si.to_bits_unchecked()));
+                                    }
+                                }
+                            }
+                        }
+                    }
+                    Rvalue::Use(Operand::Constant(c), ..) => {
+                        let ty = c.const_.ty();
+                        if ty.is_integral() || ty.is_bool() {
+                            if let Some(si) = c.const_.try_eval_scalar_int(tcx, env) {
+                                items.push(format!("{{\"v\":{}}}", si.to_bits_unchecked()));
+                            }
+                        }
+                        if let Const::Unevaluated(uv, _) = c.const_ {
+                            if uv.promoted.is_none() {
+                                items.push(format!("{{\"p\":{}}}", esc(&dpath(tcx, uv.def))));
+                            }
+                        }
+                    }
+                    _ => {}
+                }
+            }
+        }
+    }
+    format!("[{}]", items.join(","))
+}
+
+fn body_facts<'tcx>(tcx: TyCtxt<'tcx>, def: LocalDefId, body: &Body<'tcx>, promoted: &str) {
     let did = def.to_def_id();
     let path = dpath(tcx, did);
     let focus = is_focus(&path);
@@ -525,6 +576,9 @@ fn body_facts<'tcx>(tcx: TyCtxt<'tcx>, def: LocalDefId, body: &Body<'tcx>) {
         }
     }
     let _ = write!(s, ",\"ret\":{}", esc(&ty_str(body.return_ty())));
+    if focus && promoted.len() > 2 {
+        let _ = write!(s, ",\"promoted\":{}", promoted);
+    }
 
     // call-only summary (always emitted)
     let mut calls: BTreeSet<String> = BTreeSet::new();
@@ -748,13 +802,26 @@ fn hook<'tcx>(tcx: TyCtxt<'tcx>, def: LocalDefId) -> rustc_middle::queries::mir_
         defs.push(n);
     }
     for d in defs {
-        let (steal, _) = tcx.mir_promoted(d);
+        let (steal, psteal) = tcx.mir_promoted(d);
         if steal.is_stolen() {
             OUT.lock().unwrap().push(format!("{{\"k\":\"stolen\",\"fn\":{}}}", esc(&dpath(tcx, d.to_def_id()))));
             continue;
         }
         let body = steal.borrow();
-        body_facts(tcx, d, &body);
+        let mut prom = String::from("[");
+        if !psteal.is_stolen() {
+            let pbs = psteal.borrow();
+            let mut first = true;
+            for pb in pbs.iter() {
+                if !first {
+                    prom.push(',');
+                }
+                first = false;
+                prom.push_str(&promoted_summary(tcx, pb));
+            }
+        }
+        prom.push(']');
+        body_facts(tcx, d, &body, &prom);
     }
     (rustc_interface::DEFAULT_QUERY_PROVIDERS.queries.mir_borrowck)(tcx, def)
 }
